@@ -92,7 +92,11 @@ def run_case(seed, idx, rec):
     names = sorted(_OPS)
     rng = core.rng_for(seed, PROP, idx)
     gen = resgen.gen_result(rng, kind='external' if rng.random() < 0.08
-                            else None)
+                            else None, exotic=True)
+    if gen.get('decreasing_bins'):
+        rec.count('results_over_decreasing_bins')
+    if gen.get('no_pvalue'):
+        rec.count('student_results_without_pvalues')
     res, kind = gen['result'], gen['kind']
     case = {'seed': seed, 'idx': idx}
     rec.count('results')
@@ -135,6 +139,10 @@ def run_case(seed, idx, rec):
             rec.violation(f'reevaluation-raised-{kind}', repr(err), case)
             return
         rec.count('reevaluations_compared')
+        if gen.get('no_pvalue'):
+            # the result under observation was built without p-values; the
+            # evaluation computes them: compare everything else
+            again.pvalue = None
         if snapshot.digest(again) != snapshot.digest(res) \
                 or bool(again) != bool(res):
             rec.violation(f'reevaluation-differs-{kind}',
